@@ -3,6 +3,7 @@ package server
 import (
 	"database/sql"
 	"fmt"
+	"log"
 	"net"
 	"strings"
 
@@ -57,6 +58,7 @@ func (s *IMAPServer) SetTLSCertificates(certPath, keyPath string) {
 
 func (s *IMAPServer) HandleConnection(conn net.Conn) {
 	defer func() { _ = conn.Close() }()
+	defer recoverConnection("IMAP")
 
 	state := &models.ClientState{
 		Authenticated: false,
@@ -67,6 +69,14 @@ func (s *IMAPServer) HandleConnection(conn net.Conn) {
 	s.sendResponse(conn, "* OK [CAPABILITY IMAP4rev1 STARTTLS LOGINDISABLED UIDPLUS IDLE LITERAL+] SQLite IMAP server ready")
 
 	handleClient(s, conn, state)
+}
+
+// recoverConnection keeps a panic raised while serving one connection from terminating the whole
+// server: the connection is dropped, every other session carries on
+func recoverConnection(kind string) {
+	if r := recover(); r != nil {
+		log.Printf("%s connection handler panicked: %v", kind, r)
+	}
 }
 
 // ===== Helper functions for new schema =====
@@ -168,6 +178,8 @@ func (s *IMAPServer) ExtractUsername(email string) string {
 
 // HandleSSLConnection handles SSL/TLS connections (delegates to auth package)
 func (s *IMAPServer) HandleSSLConnection(conn net.Conn) {
+	defer func() { _ = conn.Close() }()
+	defer recoverConnection("IMAPS")
 	clientHandler := func(conn net.Conn, state *models.ClientState) {
 		// Send greeting for SSL/TLS connections
 		// TLS is active, so AUTH=PLAIN and LOGIN are allowed (no STARTTLS needed)
